@@ -1288,7 +1288,7 @@ func runC41(c *Ctx) {
 			n++
 			site := fmt.Sprintf("%s: buffer obtained at %s", fname(fn), guardKey(ci))
 			puts := 0
-			var firstPut ssa.Instruction
+			var firstPut, plainPut ssa.Instruction
 			okUse := true
 			why := ""
 			for _, ref := range *call.Referrers() {
@@ -1304,6 +1304,7 @@ func runC41(c *Ctx) {
 					nme := cname(r.Common())
 					if nme == "mempool.PutBuffer" {
 						puts++
+						plainPut = r
 						continue
 					}
 					if !allowedCallee(nme) {
@@ -1314,7 +1315,23 @@ func runC41(c *Ctx) {
 					okUse, why = false, fmt.Sprintf("escapes through %T", ref)
 				}
 			}
-			c.ob("C41.b owned-and-returned", site+" is returned to the pool exactly once (deferred PutBuffer)", c.pos(ci.Pos()), puts == 1 && firstPut != nil, fmt.Sprintf("%d PutBuffer references", puts))
+			if puts == 1 && firstPut == nil && plainPut != nil {
+				// a PutBuffer that is not deferred does the same when every path from the Get to a return passes it
+				// and nothing touches the buffer afterwards
+				_, leak := (&PathQuery{Fn: fn, From: ci, Target: anyReturn, Barrier: isIns(plainPut)}).Find()
+				usedAfter := false
+				for _, ref := range *call.Referrers() {
+					if ri, isIns := ref.(ssa.Instruction); isIns && ri != plainPut {
+						if _, isDbg := ref.(*ssa.DebugRef); !isDbg && reachableFrom(plainPut, ri) {
+							usedAfter = true
+						}
+					}
+				}
+				c.ob("C41.b owned-and-returned", site+" is returned to the pool exactly once (deferred PutBuffer)", c.pos(ci.Pos()), leak == nil && !usedAfter,
+					fmt.Sprintf("plain PutBuffer: a path to a return misses it: %v; the buffer is used after it: %v", leak != nil, usedAfter))
+			} else {
+				c.ob("C41.b owned-and-returned", site+" is returned to the pool exactly once (deferred PutBuffer)", c.pos(ci.Pos()), puts == 1 && firstPut != nil, fmt.Sprintf("%d PutBuffer references", puts))
+			}
 			if firstPut != nil {
 				imm := firstPut.Block() == ci.Block() && idxIn(firstPut) == idxIn(ci)+1
 				c.ob("C41.b owned-and-returned", site+": the PutBuffer is deferred immediately after the Get", c.pos(ci.Pos()), imm, "an early return in between would leak the buffer; a later non-deferred Put could be followed by a use")
